@@ -6,7 +6,7 @@ import Driver.Common
   mode checked|unchecked          which build is modelled (ADEPT_BOUNDS_CHECKING)
   parent rm|cm d0 d1 …            fresh parent Array<r,int> (r ≤ 6), row- or column-major, current view := whole parent
   aparent rm|cm d0 d1 …           the same for an ACTIVE parent Array<r,double,true> (r ≤ 3); the views stay active
-  fparent d0 d1 …                 a FixedArray<int,false,d0,…> parent (always row-major); the first successful
+  fparent d0 d1 …                 a FixedArray<int,false,d0,…> parent (4 | 3 4 | 3 3 | 2 3 4 | 2 3 4 5; always row-major); the first successful
                                   view-forming operation is executed by FixedArray's own member and yields an Array
   slice A0 A1 …                   A = i:E | r:E,E | s:E,E,E | _
                                   E = k | eK (= end - K) | end | (E+E) | (E-E) | (E*E) | (E/E) | (E>E) (max) | (E<E) (min)
@@ -26,7 +26,13 @@ import Driver.Common
   an index expression that divides by zero for the dimension it indexes: `err undefined` (never generated)
 
   answer to a view-forming op:  `ok r=… d=… s=… o=… e=… w=…`  (rank, extents, offsets, data()-parent,
-  elements in index order, parent cells changed by writing -(j+1) through element j)  or  `err <class>`.
+  elements in index order, parent cells changed by writing -(j+1) through element j)  or  `err <class>`;
+  for a view of rank ≥ 1 held by an `Array` (every line but the `fparent` line and element accesses) followed by the
+  whole-view operations of harness/drv_views_w.h, each on the parent holding its own cell numbers:
+  `f=` cells changed by `V = -5`, `a=` by `V += 1000`, `b=` extents|elements of `B = V` (B empty before), `x=` cells
+  changed by `V = B*2+3`, `v=` by the move assignment `V2 = <temporary holding B*3+1>` (V2 a copy of the view object),
+  `m=` sum(V),maxval(V) (0,0 without elements), `h=` cells changed by `V.where(V > t) = -9` (t = volume/2 of the
+  parent), `n=` count(V > t)|find(V > t) for rank 1 (`-` otherwise).
   answer to `ix`:  `err <class>` (the IndexedArray constructor threw)  or  `ok r=… d=… e=E w=W z=Z`:
   E cells read in index order or `!<class>`; W cells changed by assigning -(j+1) to element j, `cell:value;…`,
   followed by `!<class>` if the assignment threw; Z the same for the scalar assignment of -7.
@@ -122,21 +128,46 @@ def pairs : List EndExpr → Option (List (EndExpr × EndExpr))
 
 def joinInts (xs : List Int) : String := ",".intercalate (xs.map toString)
 
-/-- insert/overwrite in an association list sorted by cell -/
-def put (c v : Int) : List (Int × Int) → List (Int × Int)
-  | [] => [(c, v)]
-  | (c', v') :: r => if c < c' then (c, v) :: (c', v') :: r else if c = c' then (c, v) :: r else (c', v') :: put c v r
+/-- of consecutive stores to the same cell the last one remains -/
+def dedupLast : List (Int × Int) → List (Int × Int)
+  | a :: b :: r => if a.1 = b.1 then dedupLast (b :: r) else a :: dedupLast (b :: r)
+  | l => l
+
+/-- the memory image of a sequence of stores (cell, value): sorted by cell, a later store to the same cell wins
+    (the merge sort is stable) -/
+def sortStores (st : List (Int × Int)) : List (Int × Int) :=
+  dedupLast (st.mergeSort (fun a b => decide (a.1 ≤ b.1)))
 
 def writes (cells : List Int) : List (Int × Int) :=
-  let rec go : List Int → Int → List (Int × Int) → List (Int × Int)
-    | [], _, acc => acc
-    | c :: cs, j, acc => go cs (j + 1) (put c (-(j + 1)) acc)
-  go cells 0 []
+  sortStores (cells.zipIdx.map fun (c, j) => (c, -((j : Int) + 1)))
+
+def showPairs (l : List (Int × Int)) : String := ";".intercalate (l.map fun (c, x) => s!"{c}:{x}")
+
+/-- the whole-view operations of harness/drv_views_w.h on a view of a parent of `vol` cells holding their own numbers:
+    everything follows from the list of cells the view denotes -/
+def wholeOps (vol : Nat) (v : View) : String :=
+  let cells := (allIndices v.dims).map (addr v)
+  let img := fun (f : Int → Int) => showPairs (sortStores (cells.map fun c => (c, f c)))
+  let t : Int := ((vol / 2 : Nat) : Int)
+  let sum := cells.foldl (· + ·) 0
+  let mx := match cells with
+    | [] => 0
+    | c :: cs => cs.foldl (fun a b => if a < b then b else a) c
+  let above := cells.filter (fun c => decide (c > t))
+  let n := if v.dims.length = 1 then
+      let pos := (cells.zipIdx.filter fun (c, _) => decide (c > t)).map fun (_, j) => (j : Int)
+      s!"{pos.length}|{joinInts pos}"
+    else "-"
+  s!" f={img fun _ => -5} a={img fun c => c + 1000} b={joinInts (v.dims.map Int.ofNat)}|{joinInts cells} x={img fun c => 2 * c + 3} v={img fun c => 3 * c + 1} m={sum},{mx} h={showPairs (sortStores (above.map fun c => (c, -9)))} n={n}"
 
 def describe (v : View) : String :=
   let cells := (allIndices v.dims).map (addr v)
-  let w := (writes cells).map fun (c, x) => s!"{c}:{x}"
-  s!"ok r={v.dims.length} d={joinInts (v.dims.map Int.ofNat)} s={joinInts v.strides} o={v.base} e={joinInts cells} w={";".intercalate w}"
+  s!"ok r={v.dims.length} d={joinInts (v.dims.map Int.ofNat)} s={joinInts v.strides} o={v.base} e={joinInts cells} w={showPairs (writes cells)}"
+
+/-- the answer for a view held by an object of this kind (2: the `FixedArray` parent itself, no whole-view operations;
+    rank 0: an element) -/
+def describeFull (kind vol : Nat) (v : View) : String :=
+  if kind = 2 ∨ v.dims.isEmpty then describe v else describe v ++ wholeOps vol v
 
 def parseOp (ws : List String) : Option Op :=
   match ws with
@@ -212,8 +243,7 @@ def ixCompiled (letters : List Char) : Bool :=
   | _ => false
 
 def showStores (st : List (Int × Int)) (e : Option Err) : String :=
-  let m := st.foldl (fun acc (c, x) => put c x acc) []
-  ";".intercalate (m.map fun (c, x) => s!"{c}:{x}") ++ (match e with | some e => "!" ++ e.name | none => "")
+  showPairs (sortStores st) ++ (match e with | some e => "!" ++ e.name | none => "")
 
 def describeIx (checked : Bool) (iv : IView) : String :=
   let n := (allIndices iv.dims).length
@@ -244,11 +274,12 @@ def hasConst : Op → Bool
   | _ => false
 
 /-- the `FixedArray` parents compiled into the harness -/
-def fixedMenu : List (List Nat) := [[4], [3, 4], [3, 3], [2, 3, 4]]
+def fixedMenu : List (List Nat) := [[4], [3, 4], [3, 3], [2, 3, 4], [2, 3, 4, 5]]
 
 def freshParent (s : St) (kind : Nat) (rowMajor : Bool) (dims : List Nat) : St × String :=
   let v := fresh rowMajor dims
-  ({ s with vol := dims.foldl (· * ·) 1, cur := some v, kind := kind }, describe v)
+  let vol := dims.foldl (· * ·) 1
+  ({ s with vol := vol, cur := some v, kind := kind }, describeFull kind vol v)
 
 def step (s : St) (ws : List String) : St × String :=
   match ws with
@@ -297,7 +328,9 @@ def step (s : St) (ws : List String) : St × String :=
       | .diag _, [0, _] => ({ s with cur := none }, "ok null")
       | _, _ =>
       match apply s.checked v op with
-      | .ok w => ({ s with cur := some w, kind := if s.kind = 2 then 0 else s.kind }, describe w)
+      | .ok w =>
+        let k := if s.kind = 2 then 0 else s.kind
+        ({ s with cur := some w, kind := k }, describeFull k s.vol w)
       | .error e => (s, "err " ++ e.name)
     | _, _ => (s, "bad-op")
   | [] => (s, "bad-op")
